@@ -11,6 +11,7 @@ import PySpikeVerif.Proofs.GenRefine.ClsPwc
 import PySpikeVerif.Proofs.GenRefine.ClsPwl
 import PySpikeVerif.Proofs.GenRefine.ClsDisc
 import PySpikeVerif.Proofs.GenRefine.ClsPlot
+import PySpikeVerif.Proofs.GenRefine.ClsList
 import PySpikeVerif.Proofs.GenRefine.IsiLen
 import PySpikeVerif.Properties.C15
 import PySpikeVerif.Properties.C15Mrts
@@ -72,6 +73,18 @@ theorem source_pwl_avrg (F : Nat) (x y1 y2 : List Rat) (a b : Rat) (h : PwlOk x 
     pwl_avrg F x y1 y2 a b = (Pwl.integralCode ⟨x, y1, y2⟩ a b).map (· / (b - a)) :=
   pwl_avrg_refines F x y1 y2 a b h
 
+/-- `avrg([(a₁,b₁), …])`: summed integrals / summed lengths, for EVERY list of intervals (an interval the
+    single-interval integral rejects makes the whole call fail) -/
+theorem source_pwc_avrg_list (F : Nat) (x y : List Rat) (ivs : List (Rat × Rat)) (h : PwcOk x y)
+    (hF : ivs.length + 2 ≤ F) :
+    pwc_avrg_list F x y (ivs.map (·.1)) (ivs.map (·.2)) = Pwc.avrgListCode ⟨x, y⟩ ivs :=
+  pwc_avrg_list_refines F x y ivs h hF
+
+theorem source_pwl_avrg_list (F : Nat) (x y1 y2 : List Rat) (ivs : List (Rat × Rat)) (h : PwlOk x y1 y2)
+    (hF : ivs.length + 2 ≤ F) :
+    pwl_avrg_list F x y1 y2 (ivs.map (·.1)) (ivs.map (·.2)) = Pwl.avrgListCode ⟨x, y1, y2⟩ ivs :=
+  pwl_avrg_list_refines F x y1 y2 ivs h hF
+
 theorem source_pwl_call (F : Nat) (x y1 y2 : List Rat) (t : Rat) (h : PwlOk x y1 y2) :
     pwl_call F x y1 y2 t = if x.headD 0 ≤ t ∧ t ≤ lastD x 0 then some (Pwl.call ⟨x, y1, y2⟩ t) else none :=
   pwl_call_refines F x y1 y2 t h
@@ -88,6 +101,12 @@ theorem source_disc_integral_all (F : Nat) (x y mp : List Rat) (h : x.length = y
     assertion failure when the interval is not inside the support -/
 theorem source_disc_integral (F : Nat) (x y mp : List Rat) (a b : Rat) (h : DiscOk x y mp) :
     disc_integral F x y mp a b = Disc.integral (mkDisc3 x y mp) a b := disc_integral_refines F x y mp a b h
+
+/-- `DiscreteFunc.integral([(a₁,b₁), …])`: several intervals add up -/
+theorem source_disc_integral_list (F : Nat) (x y mp : List Rat) (ivs : List (Rat × Rat)) (h : DiscOk x y mp)
+    (hF : ivs.length + 2 ≤ F) :
+    disc_integral_list F x y mp (ivs.map (·.1)) (ivs.map (·.2)) = Disc.integralList (mkDisc3 x y mp) ivs :=
+  disc_integral_list_refines F x y mp ivs h hF
 
 /-- `DiscreteFunc.get_plottable_data(averaging_window_size=k)` — the two nested smoothing loops with their
     `break` / `continue` — returns the times unchanged and the model's smoothed values, for every `k ≥ 0`
